@@ -11,7 +11,6 @@ import WzVerif.Lemmas.HttpCC
 import WzVerif.Lemmas.HttpCRange
 import WzVerif.Lemmas.HttpCsp
 import WzVerif.Lemmas.HttpOpt3
-import WzVerif.Props.C06
 namespace Wz.C16L
 open Wz Hdr Views
 
@@ -111,6 +110,23 @@ theorem hsEq_construct (c : HS.St) (hI : HS.Inv c) : hsEq (HS.construct c.header
     · exact (hI.2.2 x).2 h
   · intro x hx; rw [hmem x]; exact Or.inr ((hI.2.2 x).1 hx)
 
+/-- `parse_set_header(HeaderSet(items).to_header())` gives back `items` (as `Props.C06.parseSet_dump`,
+restated on top of Lemmas/Http.lean) -/
+theorem parseSet_dump (items : List Str) : Http.parseSetHeader (Http.headerSetToHeader items) = items := by
+  unfold Http.parseSetHeader Http.headerSetToHeader
+  have h := Http.parseList_dump_any items
+  unfold Http.dumpHeaderList at h
+  split
+  · next he =>
+    cases items with
+    | nil => rfl
+    | cons v vs =>
+      exfalso
+      rw [List.isEmpty_iff] at he
+      rw [he] at h
+      simp [Http.parseListHeader, Http.parseHttpList, Http.httpListGo] at h
+  · exact h
+
 /-- a HeaderSet view (any members, any Unicode) that wrote itself back re-reads equal -/
 theorem set_roundtrip (h : HList) (name : Str) (c : HS.St) (hI : HS.Inv c) (hg : setGood c = true) :
     hsEq (SetView.load (SetView.write h name c) name) c = true := by
@@ -132,7 +148,7 @@ theorem set_roundtrip (h : HList) (name : Str) (c : HS.St) (hI : HS.Inv c) (hg :
       simp only [SetView.write, he, Bool.false_eq_true, if_false, SetView.load,
         set_getKey h name _ (setDump_noNL c hg)]
       unfold SetView.dump
-      rw [Wz.Props.C06.parseSet_dump]
+      rw [parseSet_dump]
     rw [this]
     exact hsEq_construct c hI
 
